@@ -372,6 +372,38 @@ def emulator_family(env, tier="quick"):
     return fam
 
 
+def herald_layout_family(env, tier="quick"):
+    """Every herald layout on a Haar unitary of 3 modes (4 in thorough): every ordered choice of <= 2 input modes x every
+    ordered choice of output modes x photon numbers {0,1,2}^k, i.e. every declaration order and every in/out pairing;
+    plus every mode heralded (no visible mode left) on 2 and 3 modes."""
+    import itertools
+    fam = []
+    g = env.L[1]
+    sizes = (3,) if tier == "quick" else (3, 4)
+    for n in sizes:
+        uni = ("uni", n, 0, False)
+        bases = {"U": [uni], "U,L": [uni, ("loss", 0, g), ("bs", 0, n - 1, env.R[1], "H", 0)]}
+        for k in (1, 2):
+            for ins in itertools.permutations(range(n), k):
+                for outs in itertools.permutations(range(n), k):
+                    for ph in itertools.product((0, 1, 2), repeat=k):
+                        if k == 2 and ph[0] == ph[1] and (ins[0] > ins[1]):
+                            continue        # equal photon numbers: the mirrored declaration order is the same layout
+                        for bn, bops in bases.items():
+                            if bn == "U,L" and (tier == "quick" or n == 4) and not (k == 2 and ph[0] != ph[1]):
+                                continue
+                            hops = [("her", ph[j], ins[j], outs[j]) for j in range(k)]
+                            fam.append({"name": "n%d/%s/lay:%s>%s:%s" % (n, bn, ins, outs, ph), "n": n, "ops": bops + hops})
+    for n in (2, 3):            # no visible mode left
+        uni = ("uni", n, 0, False)
+        for outs in itertools.permutations(range(n)):
+            for ins in itertools.permutations(range(n)):
+                for ph in ((1, 0, 2), (0, 1, 1), (2, 1, 0)):
+                    hops = [("her", ph[j], ins[j], outs[j]) for j in range(n)]
+                    fam.append({"name": "n%d/U/all:%s>%s:%s" % (n, ins, outs, ph[:n]), "n": n, "ops": [uni] + hops})
+    return fam
+
+
 def visible_inputs(c, max_photons):
     from . import ref_fock
     return ref_fock.basis_upto(c.input_modes, max_photons)
